@@ -41,3 +41,9 @@ Definition add_td (d : rd) (days secs us : Z) : rd :=
   build (mkrd (mkrel (f_years r) (f_months r) (f_days r + days) (f_hours r) (f_minutes r)
                      (f_seconds r + secs) (f_us r + us))
               (leapdays d) (ab d) (wd d)).
+
+(* d * (p/q) for a scalar whose float value is exactly p/q (an int, a dyadic float, a Fraction
+   with a power-of-two denominator) and products that are exact in double arithmetic:
+   every relative field becomes int(field * p/q), int() truncating toward zero *)
+Definition mul_q (d : rd) (p : Z) (q : positive) : rd :=
+  mul_with d (map_rel (fun x => Z.quot (x * p) (Z.pos q)) (rel d)).
